@@ -242,6 +242,22 @@ func (f *fixture) prepareState(i int) string {
 		w.Must("pay", w.Pay(p, w.Relay(f.cons, p, specA, 9002, 70, int64(w.EpochStartNow()), 1)))
 		w.NextBlock(chain.BlockDt)
 		return "after-payments"
+	case 3:
+		// the provider whose relays were valid so far freezes: it stays paired in the epochs still in memory and
+		// is unpaired from the next one on
+		in, _ := f.pairing(f.cons)
+		p := f.provs[in[0]].Addr.String()
+		w.Must("freeze", w.Tx(func() error {
+			msg := &pairingtypes.MsgFreezeProvider{Creator: p, ChainIds: []string{specA}, Reason: "verif"}
+			if err := msg.ValidateBasic(); err != nil {
+				return err
+			}
+			_, err := w.Servers.PairingServer.FreezeProvider(w.GoCtx, msg)
+			return err
+		}))
+		w.AdvanceToNextEpoch(chain.BlockDt)
+		w.NextBlock(chain.BlockDt)
+		return "after-provider-freeze"
 	default:
 		w.Must("del key", w.Tx(func() error {
 			msg := projectstypes.NewMsgDelKeys(f.cons.Addr.String(), f.project, []projectstypes.ProjectKey{projectstypes.ProjectDeveloperKey(f.dev2.Addr.String())})
@@ -256,6 +272,93 @@ func (f *fixture) prepareState(i int) string {
 		}
 		return "after-key-removal-and-memory-turnover"
 	}
+}
+
+type pctx struct {
+	cons  sigs.Account
+	name  string
+	epoch int64
+}
+
+// crossContext enumerates, for every provider, every ordered pair of distinct (consumer, in-memory epoch) contexts
+// (a, b) with the provider paired in a and not paired in b, and submits [relay@a, relay@b] and [relay@b, relay@a] in one
+// tx: the tx must fail or change exactly what [relay@a] alone changes. The relay for b is properly signed by b's
+// consumer and names the sender: the only violated condition is pairing membership.
+func (f *fixture) crossContext(run *ev.Run, stateName string, base map[string]string, sessionBase uint64) (evals int64, unpaired int64) {
+	w := f.w
+	cur := int64(w.EpochStartNow())
+	earliest := int64(w.Keepers.Epochstorage.GetEarliestEpochStart(w.Ctx))
+	var ctxs []pctx
+	for e := earliest; e <= cur; e += 4 { // the fixture keeps EpochBlocks = 4
+		if e == 0 {
+			continue
+		}
+		ctxs = append(ctxs, pctx{f.cons, "cons", e}, pctx{f.other, "other", e})
+	}
+	// each membership query runs on its own fork: the query path fills the per-block pairing cache, which must not
+	// leak from one query into the next or into the transactions under test
+	paired := func(prov string, c pctx) bool {
+		r := w.Fork()
+		defer r()
+		vr, err := w.Keepers.Pairing.VerifyPairing(w.GoCtx, &pairingtypes.QueryVerifyPairingRequest{ChainID: specA, Client: c.cons.Addr.String(), Provider: prov, Block: uint64(c.epoch)})
+		return err == nil && vr.Valid
+	}
+	s := sessionBase
+	for pi, pa := range f.provs {
+		prov := pa.Addr.String()
+		for _, a := range ctxs {
+			if !paired(prov, a) {
+				continue
+			}
+			ra := f.relay(a.cons, prov, specA, s+1, 10, a.epoch, nil, true)
+			s++
+			r := w.Fork()
+			resA := f.submit(prov, []*pairingtypes.RelaySession{ra})
+			want := w.StoreDump(nil)
+			r()
+			if !resA.OK() {
+				run.Set(fmt.Sprintf("harness_cross_valid_rejected:%s:p%d:%s@%d", stateName, pi, a.name, a.epoch), fmt.Sprint(resA.Err))
+				continue
+			}
+			for _, b := range ctxs {
+				if (b.name == a.name && b.epoch == a.epoch) || paired(prov, b) {
+					continue
+				}
+				unpaired++
+				rb := f.relay(b.cons, prov, specA, s+1, 10, b.epoch, nil, true)
+				s++
+				for _, order := range []string{"valid-first", "unpaired-first"} {
+					relays := []*pairingtypes.RelaySession{ra, rb}
+					if order == "unpaired-first" {
+						relays = []*pairingtypes.RelaySession{rb, ra}
+					}
+					evals++
+					r := w.Fork()
+					res := f.submit(prov, relays)
+					got := w.StoreDump(nil)
+					r()
+					name := fmt.Sprintf("p%d valid for %s@%d, unpaired for %s@%d, %s", pi, a.name, a.epoch, b.name, b.epoch, order)
+					if res.Panic != "" {
+						run.Violate(ev.Violation{Key: "tx-panic:cross-context", What: fmt.Sprintf("state %s, %s: panicked: %s", stateName, name, strings.SplitN(res.Panic, "\n", 2)[0])})
+						continue
+					}
+					if !res.OK() {
+						continue
+					}
+					kind := "other-consumer"
+					if a.name == b.name {
+						kind = "other-epoch"
+					}
+					if d := diff(want, got); len(d) > 0 {
+						run.Violate(ev.Violation{Key: "credited:cross-context-unpaired:" + kind + ":" + order, What: fmt.Sprintf("state %s, %s: the payment tx succeeded and changed state beyond the tx with the valid relay only: %v", stateName, name, d),
+							Replay: map[string]interface{}{"state": stateName, "case": name, "changed_keys": d}})
+					}
+				}
+			}
+		}
+	}
+	_ = base
+	return evals, unpaired
 }
 
 func (f *fixture) submit(creator string, relays []*pairingtypes.RelaySession) chain.TxResult {
@@ -297,13 +400,13 @@ func init() {
 		start := time.Now()
 		f := build()
 		w := f.w
-		var evals, rejectedOK, txFailed, acceptedValid int64
+		var evals, rejectedOK, txFailed, acceptedValid, crossEvals, crossUnpaired int64
 		distinct := map[string]bool{}
-		for st := 0; st < 3; st++ {
+		for st := 0; st < 4; st++ {
 			stateName := f.prepareState(st)
 			valid, bad := f.cases(uint64(1000 * (st + 1)))
 			// in state 3 the dev2 key was removed: its relay must now be rejected
-			if st == 2 {
+			if st >= 2 {
 				for i := range valid {
 					if valid[i].name == "valid-dev2-key" {
 						c := valid[i]
@@ -381,12 +484,23 @@ func init() {
 					}
 				}
 			}
-			run.Sample(map[string]interface{}{"state": stateName, "valid": len(valid), "corruptions": len(bad), "example": bad[len(bad)/2].name})
+			// --- cross-context pairs: a relay that is valid in one (consumer, epoch) context next to a properly signed
+			// relay of the same provider for a context in which it is not in the pairing
+			cc, ccUnpaired := f.crossContext(run, stateName, base, uint64(1000*(st+1)+500))
+			crossEvals += cc
+			crossUnpaired += ccUnpaired
+			evals += cc
+			run.Sample(map[string]interface{}{"state": stateName, "valid": len(valid), "corruptions": len(bad), "example": bad[len(bad)/2].name, "cross_context_pairs": cc})
 		}
 		run.Set("evaluations", evals)
 		run.Set("distinct_nontrivial", int64(len(distinct)))
-		run.Set("rule", "3 reachable chain states (fresh epoch; after accepted payments; after a developer key was removed and chain memory turned over) x every corruption (each signed field edited after signing; properly signed relays violating one stated condition: provider/creator mismatch, lava chain id, future/negative/out-of-memory epoch, unknown/disabled spec, stranger key, removed key, unpaired provider; 7 badge corruptions) x placement alone / after / before a valid relay in the same tx; each on a fork, compared with the fork of the tx without the corrupted relay")
+		run.Set("rule", "4 reachable chain states (fresh epoch; after accepted payments; after a developer key was removed and chain memory turned over; after the serving provider froze) x every corruption (each signed field edited after signing; properly signed relays violating one stated condition: provider/creator mismatch, lava chain id, future/negative/out-of-memory epoch, unknown/disabled spec, stranger key, removed key, unpaired provider; 7 badge corruptions) x placement alone / after / before a valid relay in the same tx; plus, per state, every provider x every ordered pair of (consumer in {cons, other}, epoch in memory) contexts where the provider is paired in the first and not in the second, both orders in one tx; a 4th state has the serving provider frozen; each on a fork, compared with the fork of the tx without the corrupted relay")
 		run.Set("exhaustive", true)
+		run.Set("cross_context_pairs_evaluated", crossEvals)
+		run.Set("cross_context_unpaired_contexts", crossUnpaired)
+		if crossEvals == 0 {
+			run.Set("harness_no_cross_context_pair", "no provider was paired in one in-memory context and unpaired in another")
+		}
 		run.Set("corrupted_relays_without_effect", rejectedOK)
 		run.Set("payment_tx_failed", txFailed)
 		run.Set("valid_relays_accepted_alone", acceptedValid)
